@@ -75,7 +75,7 @@ fn c10_strategy(ctx: &Ctx) -> BoxedStrategy<SeqCase> {
       }
       root.renumber();
       SeqCase {
-        case: Case { root, hots: vec![kind], hot_illformed: false, recorders: vec![vec![], vec![], vec![]], actions },
+        case: Case { root, hots: vec![kind], hot_illformed: false, conn: None, recorders: vec![vec![], vec![], vec![]], actions },
         hash_seed,
       }
     })
